@@ -287,14 +287,6 @@ Definition lone_field (s : shape) : option field := match s with STuple [fl] => 
 Definition variant_rename_all (raf : option rule) (v : variant) : option rule :=
   match v_rename_all v with Some r => Some r | None => if is_named (v_shape v) then raf else None end.
 
-(* the type a tagged newtype variant prints for its only field: override or name(); `inline`
-   is not consulted (enum.rs, Adjacently / Internally arms) *)
-Definition lone_ty (args : list rty) (fl : field) : outcome tsty :=
-  match f_type fl with
-  | Some text => Ok (TRaw text)
-  | None => name_of (rsubst args (f_ty fl))
-  end.
-
 (* types/enum.rs: format_variant *)
 Definition variant_gen (args : list rty) (a : cattrs) (tg : tagging) (raf : option rule) (v : variant)
   : outcome tsty :=
@@ -321,7 +313,7 @@ Definition variant_gen (args : list rty) (a : cattrs) (tg : tagging) (raf : opti
       | SUnit, _ => Ok (obj [(quoted_head t, TLit name)])
       | _, Some fl =>
           if f_skip fl then Ok (obj [(quoted_head t, TLit name)])
-          else bind (lone_ty args fl) (fun x => Ok (obj [(quoted_head t, TLit name); (quoted_head c, x)]))
+          else Ok (obj [(quoted_head t, TLit name); (quoted_head c, parsed)])
       | _, None => Ok (obj [(quoted_head t, TLit name); (quoted_head c, parsed)])
       end
   | Internal t =>
@@ -332,7 +324,7 @@ Definition variant_gen (args : list rty) (a : cattrs) (tg : tagging) (raf : opti
           | SUnit, _ => Ok (obj [(quoted_head t, TLit name)])
           | _, Some fl =>
               if f_skip fl then Ok (obj [(quoted_head t, TLit name)])
-              else bind (lone_ty args fl) (fun x => Ok (TInter [obj [(quoted_head t, TLit name)]; x]))
+              else Ok (TInter [obj [(quoted_head t, TLit name)]; parsed])
           | _, None => Ok (TInter [obj [(quoted_head t, TLit name)]; parsed])
           end
       end
@@ -369,12 +361,12 @@ Definition def_body (d : typedef) (args : list rty) : outcome derived :=
   end.
 
 (* utils.rs: format_generics pushes the defaults of the type parameters *)
-Definition default_deps (a : cattrs) : list rty :=
-  flat_map (fun p => match snd p with Some dflt => push dflt | None => [] end) (c_params a).
+Definition default_deps (a : cattrs) (args : list rty) : list rty :=
+  flat_map (fun p => match snd p with Some dflt => push (rsubst args dflt) | None => [] end) (c_params a).
 
 Definition def_deps (d : typedef) (args : list rty) : outcome (list rty) :=
   let a := attrs_of d in
-  omap (fun l => l ++ default_deps a)
+  omap (fun l => l ++ default_deps a args)
   match c_type a, c_as a with
   | Some _, _ => Ok []
   | None, Some u => vdp (rsubst args u)
@@ -414,7 +406,7 @@ Definition decl_of (fuel : nat) (d : typedef) : outcome tsdecl :=
   bind (gen fuel d (dummies a)) (fun r =>
   bind (omap_list (fun p => match snd p with
                             | None => Ok (fst p, None)
-                            | Some dflt => bind (name_of dflt) (fun x => Ok (fst p, Some x))
+                            | Some dflt => bind (name_of (rsubst (dummies a) dflt)) (fun x => Ok (fst p, Some x))
                             end) (c_params a)) (fun ps =>
   Ok {| d_docs := parse_docs (c_docs a); d_name := ts_ident d; d_params := ps; d_body := fst r |})).
 
